@@ -9,11 +9,14 @@ package internal_test
 // every attached subscriber, and the listener counters, with the specification's prediction.
 
 import (
+	"bufio"
 	"context"
+	"encoding/json"
 	"errors"
 	"fmt"
 	"hash/fnv"
 	"math/rand"
+	"os"
 	"sort"
 	"strings"
 	"sync"
@@ -317,7 +320,7 @@ func runC15Case(c kit.Case) (v kit.Verdict) {
 	for i, st := range c.Steps {
 		op := kit.Str(st["op"])
 		key := c15Prefix + "/" + kit.Str(st["k"])
-		trail = append(trail, op+":"+kit.Str(st["k"])+kit.Str(st["s"]))
+		trail = append(trail, op+":"+kit.Str(st["k"])+kit.Str(st["s"])+c15Mid(st["mid"]))
 		switch op {
 		case "init":
 			for _, k := range kit.List(st["keys"]) {
@@ -452,6 +455,18 @@ func c15Val(_ kit.Case, k string) string {
 	panic("c15: no value for key " + k + " in VERIF_C15_VALOF")
 }
 
+func c15Mid(v any) string {
+	var out []string
+	for _, m := range kit.List(v) {
+		mm := m.(map[string]any)
+		out = append(out, kit.Str(mm["op"])+":"+kit.Str(mm["k"]))
+	}
+	if len(out) == 0 {
+		return ""
+	}
+	return "(then, before the new watch: " + strings.Join(out, ",") + ")"
+}
+
 func c15In(got string, allowed []string) bool {
 	for _, a := range allowed {
 		if a == got {
@@ -490,20 +505,78 @@ func c15Kind(got []string, exp any) string {
 
 func TestVerifC15(t *testing.T) {
 	logx.SetWriter(c15Logger)
-	cases, err := kit.LoadCases(kit.Env("VERIF_CASES", ""))
-	if err != nil {
-		t.Fatal(err)
-	}
 	rep, err := kit.NewReporter(kit.Env("VERIF_OUT", ""))
 	if err != nil {
 		t.Fatal(err)
 	}
 	defer rep.Close()
 	shard, shards := kit.EnvInt("VERIF_SHARD", 0), kit.EnvInt("VERIF_SHARDS", 1)
-	for _, c := range cases {
-		if c.Index%shards != shard {
+	// like kit.LoadCases, but a shard decodes only its own lines (case files of several 10^5 lines)
+	f, err := os.Open(kit.Env("VERIF_CASES", ""))
+	if err != nil {
+		t.Fatal(err)
+	}
+	defer f.Close()
+	sc := bufio.NewScanner(f)
+	sc.Buffer(make([]byte, 1<<20), 1<<26)
+	for i := 0; sc.Scan(); {
+		line := sc.Bytes()
+		if len(line) == 0 {
 			continue
 		}
+		idx := i
+		i++
+		if idx%shards != shard {
+			continue
+		}
+		c := kit.Case{Index: idx, Raw: append([]byte(nil), line...)}
+		if err := json.Unmarshal(line, &c.Steps); err != nil {
+			t.Fatalf("case %d: %v", idx, err)
+		}
 		rep.Put(runC15Case(c))
+	}
+	if err := sc.Err(); err != nil {
+		t.Fatal(err)
+	}
+}
+
+// TestVerifC15Probe measures (does not judge) two behaviours outside the generated histories;
+// checks/c15.py copies the result into the evidence notes.
+//   revalue: a key is deleted and re-created with another value while the watch is down, so
+//            the reload snapshot shows the key with a changed value.
+func TestVerifC15Probe(t *testing.T) {
+	logx.SetWriter(c15Logger)
+	rng := rand.New(rand.NewSource(kit.Seed()))
+	endpoints := []string{"verif-c15-probe:2379"}
+	etcd := newC15Etcd()
+	internal.VerifSeedClient(endpoints, etcd)
+	defer internal.VerifDrop(endpoints)
+	etcd.apply(c15Change{key: c15Prefix + "/k1", val: "va"})
+	sub, err := discov.NewSubscriber(endpoints, c15Prefix)
+	if err != nil {
+		t.Fatal(err)
+	}
+	if !kit.WaitFor(c15Timeout, func() bool { return etcd.watchCalls() >= 1 }) {
+		t.Fatal("no watch registered")
+	}
+	if err := etcd.pump(rng); err != nil {
+		t.Fatal(err)
+	}
+	before := c15Canon(sub.Values())
+	// outage: k1 expires and is re-registered with value vb
+	etcd.apply(c15Change{del: true, key: c15Prefix + "/k1"})
+	etcd.apply(c15Change{key: c15Prefix + "/k1", val: "vb"})
+	etcd.killWatchers()
+	internal.VerifReload(endpoints, etcd)
+	if !kit.WaitFor(c15Timeout, func() bool { return etcd.watchCalls() >= 2 }) {
+		t.Fatal("no watch registered after reload")
+	}
+	if err := etcd.pump(rng); err != nil {
+		t.Fatal(err)
+	}
+	out := kit.M{"revalue": kit.M{"before": before, "after_reload": c15Canon(sub.Values()), "etcd": "{vb}"}}
+	b, _ := json.Marshal(out)
+	if err := os.WriteFile(kit.Env("VERIF_C15_PROBE_OUT", os.TempDir()+"/c15probe.json"), b, 0o644); err != nil {
+		t.Fatal(err)
 	}
 }
